@@ -965,8 +965,9 @@ def continueSMP (K : Crypto) (secret : Bytes) : M Tlv := do
       modc fun c => { c with smp := { c.smp with state := some .expect1 } }
       return smpAbortTlv
   | _ =>
-    -- repaired code: ensureSMP() first, so a nil state behaves like EXPECT1
-    modc fun c => { c with smp := { c.smp with state := some .expect1 } }
+    -- repaired code: ensureSMP() first (a nil state becomes EXPECT1); nobody asked for a secret: the
+    -- call is refused and changes nothing else
+    modc fun c => { c with smp := { c.smp with state := some (c.smp.state.getD .expect1) } }
     throw .notWaitingForSecret
 
 def provideAuthenticationSecret (K : Crypto) (secret : Bytes) : M (List Bytes) := do
@@ -1368,8 +1369,9 @@ def receiveUnit (K : Crypto) : Nat → Bytes → Bool → M RecvResult
         return ⟨r.plain, ← withInjects r.toSend, r.err⟩
       finish none [] err false
     | .unknown =>
+      -- repaired code: not looked at any further, so it does not disturb a fragment stream of the peer
       msgEvent evUnrecognized
-      finish none [] none true
+      finish none [] none false
     | .dhCommit | .dhKey | .revealSig | .signature | .data =>
       match decodeEnvelope message with
       | none => finish none [] (some .invalidMessage) true
